@@ -1591,6 +1591,55 @@ Proof.
   f_equal. rewrite <- (paths_agree _ _ _ Hs). unfold bind_formatted. rewrite Hf. reflexivity.
 Qed.
 
+(* ---- a default is for absent keys only ------------------------------------------------------------------------ *)
+
+(* one placeholder whose body resolves to an inert text: the ${} stage leaves exactly that text *)
+Lemma quote_stage_body : forall fx cfg body text, brace_free body = true ->
+  resolve fx cfg body = Ok text -> inert text = true ->
+  find_first b_dollar (ph body) <> None /\
+  replace_all_content b_dollar (resolve fx cfg) (Some repo_budget) O (ph body) = Done text.
+Proof.
+  intros fx cfg body text Hb Hr Hi. split.
+  - rewrite ph_mtext, (find_first_at b_dollar eq_refl eq_refl [] body [] eq_refl Hb). discriminate.
+  - unfold replace_all_content. change repo_budget with (S 1023).
+    rewrite ph_mtext, (rac_step_at b_dollar eq_refl eq_refl (resolve fx cfg) Exhausted 1023 [] body [] eq_refl Hb).
+    rewrite Hr. cbn [app]. rewrite app_nil_r, rac_loop_eq.
+    destruct (inert_split text Hi) as [I1 _]. now rewrite (find_first_absent _ _ I1).
+Qed.
+
+Lemma bind_tag_value_body : forall fx cfg req body text T, brace_free body = true ->
+  resolve fx cfg body = Ok text -> inert text = true ->
+  bind_tag_value fx cfg req (ph body) T = Some (bind_value_r req text T).
+Proof.
+  intros fx cfg req body text T Hb Hr Hi.
+  destruct (quote_stage_body fx cfg body text Hb Hr Hi) as [Hff Hq].
+  unfold bind_tag_value. destruct (find_first b_dollar (ph body)); [|congruence].
+  rewrite Hq. unfold expr_free. destruct (inert_split text Hi) as [_ I2]. now rewrite (find_first_absent _ _ I2).
+Qed.
+
+(* value:"${key:d}" on a key that is PRESENT (not nil / empty map / empty list - the empty string is present) binds
+   what value:"${key}" binds: the text the callback renders for the configured value, for every field type and with
+   or without required=false *)
+Theorem default_ignored_when_present : forall fx cfg key d req T text,
+  key_ok key = true -> brace_free d = true -> absent (cfg key) = false ->
+  format_cfg fx (cfg key) = Ok text -> inert text = true ->
+  bind_tag_value fx cfg req (ph (key_dflt key (Some d))) T = bind_tag_value fx cfg req (ph key) T /\
+  bind_tag_value fx cfg req (ph key) T = Some (bind_value_r req text T).
+Proof.
+  intros fx cfg key d req T text Hk Hd Ha Hf Hi. unfold key_ok in Hk. apply andb_true_iff in Hk. destruct Hk as [Hb Hc].
+  destruct (byte_index b_colon key) eqn:Ec; [discriminate|].
+  assert (R1 : resolve fx cfg (key ++ b_colon :: d) = Ok text).
+  { rewrite (resolve_present fx cfg key (b_colon :: d) Ec (or_intror (ex_intro _ d eq_refl)) Ha). exact Hf. }
+  assert (R0 : resolve fx cfg key = Ok text).
+  { rewrite <- (app_nil_r key) at 1. rewrite (resolve_present fx cfg key [] Ec (or_introl eq_refl) Ha). exact Hf. }
+  assert (Hbd : brace_free (key ++ b_colon :: d) = true).
+  { apply brace_free_app. split; [exact Hb|].
+    change (brace_free (b_colon :: d)) with (negb (is_brace b_colon) && brace_free d). rewrite Hd. reflexivity. }
+  unfold key_dflt.
+  rewrite (bind_tag_value_body fx cfg req _ text T Hbd R1 Hi), (bind_tag_value_body fx cfg req _ text T Hb R0 Hi).
+  split; reflexivity.
+Qed.
+
 (* ---- literals ---------------------------------------------------------------------------------------------- *)
 
 Theorem literal_string : forall s, plain s = true -> s <> [] -> bind_value s TString = Ok (FStr s).
